@@ -77,11 +77,11 @@ Section MD.
 
   (** The standards (RFC 1321 3.1-3.2, FIPS 180-4 5.1): append 0x80, then the least number of zero bytes
       that brings the length to P mod B, then the length field; split into B-byte blocks; fold. *)
-  Definition pad_zeros (n : nat) : nat := ((P + B - 1 - n mod B) mod B)%nat.
+  Definition pad_zeros (n : nat) : nat := Nat.modulo (P + B - 1 - Nat.modulo n B) B.
   Definition pad (msg : list N) : list N :=
     msg ++ 128 :: repeat 0 (pad_zeros (length msg)) ++ spec_field (8 * N.of_nat (length msg)).
   Definition H_spec (msg : list N) : list N :=
-    let p := pad msg in out (fold_left compress (chunk B (length p / B) p) iv).
+    let p := pad msg in out (fold_left compress (chunk B (Nat.div (length p) B) p) iv).
 End MD.
 
 Arguments mk {H}.
